@@ -1,10 +1,11 @@
-import CharonV.Model.Sched
+import CharonV.Model.SchedHead
 import Driver.Common
 
 /-!
 Line driver for the scheduler model (C15). Ops (see `harness/cmd/drive-sched/main.go`):
 
-  cfg <spe> <durMs> <startNs> <reorg 0|1>     new episode
+  cfg <spe> <durMs> <startNs> <reorg 0|1> [<flags>]   new episode; flags: 1 FetchAttOnBlock,
+                                              2 FetchAttOnBlockWithDelay, 4 fetch-only function not registered
   val <idx> <pk> <status> <actEpoch> | val <idx> nil | val <idx> del
   att <epoch> <item,..|->     item = vidx:pk:slot:tag | nil
   pro <epoch> <item,..|->     item = vidx:pk:slot     | nil
@@ -12,6 +13,11 @@ Line driver for the scheduler model (C15). Ops (see `harness/cmd/drive-sched/mai
   fail <v|a|p|s> <bits>       the next calls to that endpoint fail where the bit is 1
   adv <ns>                    advance the clock (the ticker is created at the first adv)
   reorg <epoch>               chain reorg event
+  advl <ns>                   advance the clock; parked attester triggers that become due stay parked
+  fire <slot>                 the parked attester trigger of the slot proceeds (if due)
+  head <slot> <root> <addr>   SSE head event
+  getdef <slot> <type>        GetDutyDefinition
+  probe <slot> <type> [<k>]   GetDutyDefinition is called from inside the (k+1)-th attester-duties call from now
 -/
 open CharonV.Sched
 
@@ -29,9 +35,11 @@ structure Script where
 
 structure DState where
   cfg : Cfg := { spe := 1, slotDur := 1, reorgEnabled := false }
-  sys : Sys := {}
+  hs : HSys := {}
   started : Bool := false
   sc : Script := {}
+  probe : Option Duty := none
+  probeSkip : Nat := 0
 
 def failAt (bits : List Bool) (k base : Nat) : Bool := (bits[k - base]?).getD false
 
@@ -75,11 +83,73 @@ def tickStr (p : Nat × List Trigger) : String :=
   let ts := sortBy (fun (a b : Trigger) => a.duty.ty < b.duty.ty) p.2
   s!"t{p.1}[" ++ Driver.joinWith "," (ts.map trigStr) ++ "]"
 
-def digest (s : State) : String :=
+def digest (cfg : Cfg) (h : HSys) : String :=
+  let s := h.sys.st
   let re := if s.resolvedEpoch == maxInt64 then "-" else toString s.resolvedEpoch
   let pairs := s.duties.foldl (fun n p => n + p.2.length) 0
   let ne := s.dutiesByEpoch.foldl (fun n p => n + p.2.length) 0
-  s!"re={re} nd={s.duties.length}/{pairs} ne={ne}"
+  let base := s!"re={re} nd={s.duties.length}/{pairs} ne={ne}"
+  if earlyFetchOn cfg then
+    let lst (l : List Nat) : String :=
+      if l.isEmpty then "-" else Driver.joinWith "," ((sortBy (fun (a b : Nat) => a < b) l).map toString)
+    base ++ s!" ev={lst h.evt} pd={lst (h.pend.map (fun t => t.duty.slot))}"
+  else base
+
+def defsStr (ds : DefSet) : String :=
+  let ds := sortBy (fun (a b : Nat × Def) => a.1 < b.1) ds
+  "{" ++ Driver.joinWith ";" (ds.map (fun p => s!"{p.1}={defStr p.2}")) ++ "}"
+
+def getDefStr : GetDef → String
+  | .deprecated => "deprecated"
+  | .unresolved => "unresolved"
+  | .trimmed => "trimmed"
+  | .notFound => "notfound"
+  | .ok ds => "ok" ++ defsStr ds
+  | .blocked => "blocked"
+
+/-! the probe: which `resolveDuties` invocation of a slot makes attester-duties call number `k` -/
+
+def scanResolve (bn : BN) (cfg : Cfg) (s : State) (slot' k : Nat) (d : Duty) : Option GetDef :=
+  let s' := resolveDuties bn cfg s slot'
+  if s.na == k && s'.na == k + 1 then some (probe cfg s s' slot' d) else none
+
+def scanLoop (bn : BN) (cfg : Cfg) (slot k : Nat) (d : Duty) : List Nat → State → Option GetDef
+  | [], _ => none
+  | ty :: tys, s =>
+    match AMap.get? s.duties ⟨slot, ty⟩ with
+    | none => scanLoop bn cfg slot k d tys s
+    | some _ =>
+      if lastInEpoch cfg slot then
+        match scanResolve bn cfg s (slot + 1) k d with
+        | some r => some r
+        | none => scanLoop bn cfg slot k d tys (resolveDuties bn cfg s (slot + 1))
+      else scanLoop bn cfg slot k d tys s
+
+def scanSlot (bn : BN) (cfg : Cfg) (s : State) (slot k : Nat) (d : Duty) : Option GetDef :=
+  let pre := if s.resolvedEpoch ≠ slot / cfg.spe then scanResolve bn cfg s slot k d else none
+  match pre with
+  | some r => some r
+  | none => scanLoop bn cfg slot k d allDutyTypes (preResolve bn cfg s slot)
+
+def firedStr (t : Trigger) : String := s!"f{t.duty.slot}[{trigStr t}]"
+
+/-- renders the outputs of a clock advance; returns the strings and whether the probe was consumed. -/
+def outsStr (bn : BN) (cfg : Cfg) (k : Nat) (pr : Option Duty) : List Out → List String × Bool
+  | [] => ([], false)
+  | .fired ts :: rest =>
+    let r := outsStr bn cfg k pr rest
+    (ts.map firedStr ++ r.1, r.2)
+  | .tick slot pre ts :: rest =>
+    let t := tickStr (slot, ts.filter (fun t => !waits cfg t))
+    match pr with
+    | none => let r := outsStr bn cfg k none rest; (t :: r.1, r.2)
+    | some d =>
+      match scanSlot bn cfg pre slot k d with
+      | some g => let r := outsStr bn cfg k none rest; (t :: s!"P[{getDefStr g}]" :: r.1, true)
+      | none => let r := outsStr bn cfg k pr rest; (t :: r.1, r.2)
+
+def clearGhost (h : HSys) : HSys :=
+  { h with sys := { h.sys with hist := [], ticked := [] }, fired := [], fetches := [], stored := [], trimmed := [] }
 
 /-! parsing -/
 
@@ -117,27 +187,37 @@ def setVal (m : List (Nat × Option Val)) (i : Nat) (v : Option (Option Val)) : 
   | none => m'
   | some e => sortBy (fun (a b : Nat × Option Val) => a.1 < b.1) ((i, e) :: m')
 
-def doAdv (d : DState) (ns : Nat) : DState × String :=
-  let bn := bnOf d.sc d.sys.st
+def doAdv (d : DState) (ns : Nat) (eager : Bool) : DState × String :=
+  let bn := bnOf d.sc d.hs.sys.st
   -- `Run` creates the ticker (which emits the current slot at once) before the clock moves
-  let r0 := if d.started then (d.sys, []) else Sys.step bn d.cfg d.sys (.adv 0)
-  let r1 := Sys.step bn d.cfg r0.1 (.adv ns)
-  let ticks := r0.2 ++ r1.2
-  let sc := consume d.sc d.sys.st r1.1.st
+  let r0 := if d.started then (d.hs, []) else HSys.adv bn d.cfg d.hs 0 eager
+  let r1 := HSys.adv bn d.cfg r0.1 ns eager
+  let o := outsStr bn d.cfg (d.hs.sys.st.na + d.probeSkip) d.probe (r0.2 ++ r1.2)
+  let sc := consume d.sc d.hs.sys.st r1.1.sys.st
   -- ghost histories are not needed by the driver
-  let sys := { r1.1 with hist := [], ticked := [] }
-  let out := if ticks.isEmpty then "-" else Driver.joinWith " " (ticks.map tickStr)
-  ({ d with sys := sys, started := true, sc := sc }, out ++ " | " ++ digest sys.st)
+  let hs := clearGhost r1.1
+  let out := if o.1.isEmpty then "-" else Driver.joinWith " " o.1
+  -- attester-duties calls made while the probe stayed armed count against its skip
+  let skip := if o.2 then 0 else d.probeSkip - (r1.1.sys.st.na - d.hs.sys.st.na)
+  ({ d with hs := hs, started := true, sc := sc, probe := if o.2 then none else d.probe, probeSkip := skip }, out ++ " | " ++ digest d.cfg hs)
+
+def mkCfg (spe durMs ro fl : Nat) : Cfg :=
+  { spe := spe, slotDur := durMs * 1000000, reorgEnabled := ro != 0,
+    fetchAttOnBlock := fl % 2 == 1, fetchAttOnBlockWithDelay := (fl / 2) % 2 == 1,
+    fetchOnlyRegistered := (fl / 4) % 2 == 0 }
+
+def doCfg (d : DState) (a b c r f : String) : DState × String :=
+  match a.toNat?, b.toNat?, c.toNat?, r.toNat?, f.toNat? with
+  | some spe, some durMs, some start, some ro, some fl =>
+    if spe == 0 || durMs == 0 || fl ≥ 8 then (d, "bad-op") else
+    let cfg := mkCfg spe durMs ro fl
+    ({ cfg := cfg, hs := HSys.init cfg start, started := false, sc := {}, probe := none }, "ok")
+  | _, _, _, _, _ => (d, "bad-op")
 
 def step (d : DState) (line : String) : DState × String :=
   match line.splitOn " " with
-  | ["cfg", a, b, c, r] =>
-    match a.toNat?, b.toNat?, c.toNat?, r.toNat? with
-    | some spe, some durMs, some start, some ro =>
-      if spe == 0 || durMs == 0 then (d, "bad-op") else
-      let cfg : Cfg := { spe := spe, slotDur := durMs * 1000000, reorgEnabled := ro != 0 }
-      ({ cfg := cfg, sys := Sys.init cfg start, started := false, sc := {} }, "ok")
-    | _, _, _, _ => (d, "bad-op")
+  | ["cfg", a, b, c, r] => doCfg d a b c r "0"
+  | ["cfg", a, b, c, r, f] => doCfg d a b c r f
   | ["val", i, "nil"] =>
     match i.toNat? with
     | some i => ({ d with sc := { d.sc with vals := setVal d.sc.vals i (some none) } }, "ok")
@@ -175,15 +255,48 @@ def step (d : DState) (line : String) : DState × String :=
     | none => (d, "bad-op")
   | ["adv", a] =>
     match a.toNat? with
-    | some ns => doAdv d ns
+    | some ns => doAdv d ns true
+    | none => (d, "bad-op")
+  | ["advl", a] =>
+    match a.toNat? with
+    | some ns => doAdv d ns false
     | none => (d, "bad-op")
   | ["reorg", a] =>
     match a.toNat? with
     | some ep =>
-      let bn := bnOf d.sc d.sys.st
-      let r := Sys.step bn d.cfg d.sys (.reorg ep)
-      ({ d with sys := r.1 }, "ok | " ++ digest r.1.st)
+      let hs := clearGhost (d.hs.reorg d.cfg ep)
+      ({ d with hs := hs }, "ok | " ++ digest d.cfg hs)
     | none => (d, "bad-op")
+  | ["fire", a] =>
+    match a.toNat? with
+    | some slot =>
+      let r := d.hs.fire slot
+      let hs := clearGhost r.1
+      let out := if r.2.isEmpty then "-" else Driver.joinWith " " (r.2.map firedStr)
+      ({ d with hs := hs }, out ++ " | " ++ digest d.cfg hs)
+    | none => (d, "bad-op")
+  | ["head", a, root, addr] =>
+    match a.toNat?, root.toNat? with
+    | some slot, some root =>
+      let r := d.hs.head d.cfg slot
+      let hs := clearGhost r.1
+      let out := match r.2 with
+        | some f => s!"F{f.slot}@{root}/{addr}" ++ defsStr f.defs
+        | none => "-"
+      ({ d with hs := hs }, out ++ " | " ++ digest d.cfg hs)
+    | _, _ => (d, "bad-op")
+  | ["getdef", a, t] =>
+    match a.toNat?, t.toNat? with
+    | some slot, some ty => (d, getDefStr (getDutyDefinition d.cfg d.hs.sys.st ⟨slot, ty⟩))
+    | _, _ => (d, "bad-op")
+  | ["probe", a, t] =>
+    match a.toNat?, t.toNat? with
+    | some slot, some ty => ({ d with probe := some ⟨slot, ty⟩, probeSkip := 0 }, "ok")
+    | _, _ => (d, "bad-op")
+  | ["probe", a, t, k] =>
+    match a.toNat?, t.toNat?, k.toNat? with
+    | some slot, some ty, some k => ({ d with probe := some ⟨slot, ty⟩, probeSkip := k }, "ok")
+    | _, _, _ => (d, "bad-op")
   | _ => (d, "bad-op")
 
 end Driver.Sched
